@@ -266,6 +266,52 @@ def r2_functions(program, folder, rep, eths):
     rep.floor("C19-R2", 12)
 
 
+def r2_dimensions(program, rep):
+    """The dimensions the controller hands to the SpiNN-5 geometry are one
+    more than the largest x and the largest y among the working chips, each
+    maximum taken on its own (the maximum of the (x, y) pairs is ordered by
+    x first: its y is not the largest y)."""
+    fn = program.get("rig.machine_control.machine_controller:"
+                     "MachineController.discover_connections")
+    inst = qual(fn)
+    T = Terms(fn)
+    MAX = ("global", "max")
+    for k, var in ((0, "self._width"), (1, "self._height")):
+        bs = [b_ for b_ in T.binds if b_.var == var and b_.mode == "assign"]
+        if len(bs) != 1:
+            raise AnalysisError("discover_connections: %s is not set "
+                                "once" % var)
+        t = plain(T._bind_term(bs[0]))
+        if not (t[0] == "binop" and t[1] == "Add" and
+                ("const", 1) in (t[2], t[3])):
+            raise AnalysisError("discover_connections: %s is not a maximum "
+                                "plus one" % var)
+        m = t[3] if t[2] == ("const", 1) else t[2]
+        verdict = None
+        if m[0] == "comp" and m[1][0] == "call" and m[1][1] == MAX and \
+                len(m[1][2]) == 1:
+            # pairs compare by x first: the first component of the largest
+            # pair is the largest x, its second is not the largest y
+            verdict = (m[2] == 0 and k == 0, "component %d of the largest "
+                       "(x, y) pair (pairs compare by x first)" % m[2])
+        elif m[0] == "call" and m[1] == MAX and len(m[2]) == 1 and \
+                m[2][0][0] in ("genexp", "listcomp", "setcomp"):
+            el = m[2][0][1]
+            if el[0] == "comp" and isinstance(el[2], int):
+                verdict = (el[2] == k, "the largest component %d" % el[2])
+        if verdict is None:
+            raise AnalysisError("discover_connections: how %s is derived "
+                                "from the working chips is not read by "
+                                "these rules" % var)
+        rep.check(verdict[0], "C19-R2", inst, "%s = 1 + the largest %s "
+                  "coordinate of a working chip" % (var, "xy"[k]),
+                  construct="%s from working chips" % var, node=bs[0].node.ast,
+                  fail="%s is 1 + %s, not 1 + the largest %s coordinate: "
+                       "Ethernet chips beyond it are never looked for and "
+                       "chips are attributed to the wrong board" % (
+                           var, verdict[1], "xy"[k]))
+
+
 def r3_fpga(program, folder, rep):
     links = folder.name("rig.links", "Links")
     table = folder.name(MOD, "SPINN5_FPGA_LINKS")
@@ -470,6 +516,7 @@ def check(program, rep):
     folder = Folder(program)
     eths = rep.guard("C19-R1", r1_offset_table, folder, rep)
     rep.guard("C19-R2", r2_functions, program, folder, rep, eths)
+    rep.guard("C19-R2", r2_dimensions, program, rep)
     rep.guard("C19-R3", r3_fpga, program, folder, rep)
     rep.guard("C19-R4", r4_dimensions, program, rep)
     return finish(rep, program, EXPLANATION, NOT_DECIDED,
